@@ -15,6 +15,22 @@ struct Rlimit {
 extern "C" {
     fn clock_gettime(clk: i32, ts: *mut Timespec) -> i32;
     fn setrlimit(res: i32, rl: *const Rlimit) -> i32;
+    fn getrlimit(res: i32, rl: *mut Rlimit) -> i32;
+}
+
+/// Move only the SOFT limit of a resource. The hard limit is left alone: an unprivileged
+/// process can lower it but never raise it again, so touching it makes every later call fail
+/// (that was a bug here: the per-case watchdog pinned itself to its first value and killed
+/// every worker after ~31 s of total CPU - seen as soon as a tier ran longer than that).
+fn set_soft(res: i32, soft: u64) -> bool {
+    let mut cur = Rlimit { cur: 0, max: 0 };
+    unsafe {
+        if getrlimit(res, &mut cur) != 0 {
+            return false;
+        }
+        let rl = Rlimit { cur: soft.min(cur.max), max: cur.max };
+        setrlimit(res, &rl) == 0
+    }
 }
 
 const CLOCK_THREAD_CPUTIME_ID: i32 = 3;
@@ -39,10 +55,7 @@ pub fn mono_ns() -> u64 {
 }
 
 pub fn limit_cpu_seconds(s: u64) {
-    let rl = Rlimit { cur: s, max: s + 5 };
-    unsafe {
-        setrlimit(RLIMIT_CPU, &rl);
-    }
+    set_soft(RLIMIT_CPU, s);
 }
 
 pub fn limit_address_space(bytes: u64) {
@@ -66,8 +79,5 @@ pub fn process_cpu_ns() -> u64 {
 /// sends SIGXCPU, the worker dies and the driver attributes the death to the journalled case.
 pub fn arm_case_limit(secs: u64) {
     let used = process_cpu_ns() / 1_000_000_000 + 1;
-    let rl = Rlimit { cur: used + secs, max: used + secs + 5 };
-    unsafe {
-        setrlimit(RLIMIT_CPU, &rl);
-    }
+    set_soft(RLIMIT_CPU, used + secs);
 }
